@@ -50,7 +50,7 @@ package tensor
 //@   ensures [no_iter] err == nil && !useIter ==> isnil(ait) && isnil(iit)
 //@   ensures [flat_when_possible] err == nil && useIter ==> !(flatOK(asptr("tensor.Dense", a)) && (isnil(reuse) || (flatOK(asptr("tensor.Dense", reuse)) && sameOrder(asptr("tensor.Dense", a), asptr("tensor.Dense", reuse)))))
 //@   ensures [scalar] err == nil ==> fresh(dataB) && fresh(dataB.Raw)
-//@   ensures [scalar_value] err == nil ==> (hastype(b, "int") ==> len(tview("int", dataB)) == 1 && tview("int", dataB)[0] == unbox("int", b)) && (hastype(b, "int8") ==> len(tview("int8", dataB)) == 1 && tview("int8", dataB)[0] == unbox("int8", b)) && (hastype(b, "int16") ==> len(tview("int16", dataB)) == 1 && tview("int16", dataB)[0] == unbox("int16", b)) && (hastype(b, "int32") ==> len(tview("int32", dataB)) == 1 && tview("int32", dataB)[0] == unbox("int32", b)) && (hastype(b, "int64") ==> len(tview("int64", dataB)) == 1 && tview("int64", dataB)[0] == unbox("int64", b)) && (hastype(b, "uint") ==> len(tview("uint", dataB)) == 1 && tview("uint", dataB)[0] == unbox("uint", b)) && (hastype(b, "uint8") ==> len(tview("uint8", dataB)) == 1 && tview("uint8", dataB)[0] == unbox("uint8", b)) && (hastype(b, "uint16") ==> len(tview("uint16", dataB)) == 1 && tview("uint16", dataB)[0] == unbox("uint16", b)) && (hastype(b, "uint32") ==> len(tview("uint32", dataB)) == 1 && tview("uint32", dataB)[0] == unbox("uint32", b)) && (hastype(b, "uint64") ==> len(tview("uint64", dataB)) == 1 && tview("uint64", dataB)[0] == unbox("uint64", b)) && (hastype(b, "float32") ==> len(tview("float32", dataB)) == 1 && tview("float32", dataB)[0] == unbox("float32", b)) && (hastype(b, "float64") ==> len(tview("float64", dataB)) == 1 && tview("float64", dataB)[0] == unbox("float64", b)) && (hastype(b, "complex64") ==> len(tview("complex64", dataB)) == 1 && tview("complex64", dataB)[0] == unbox("complex64", b)) && (hastype(b, "complex128") ==> len(tview("complex128", dataB)) == 1 && tview("complex128", dataB)[0] == unbox("complex128", b)) && (hastype(b, "string") ==> len(tview("string", dataB)) == 1 && tview("string", dataB)[0] == unbox("string", b))
+//@   ensures [scalar_value] err == nil ==> (hastype(b, "int") ==> len(tview("int", dataB)) == 1 && len(dataB.Raw) == 8 && tview("int", dataB)[0] == unbox("int", b)) && (hastype(b, "int8") ==> len(tview("int8", dataB)) == 1 && len(dataB.Raw) == 1 && tview("int8", dataB)[0] == unbox("int8", b)) && (hastype(b, "int16") ==> len(tview("int16", dataB)) == 1 && len(dataB.Raw) == 2 && tview("int16", dataB)[0] == unbox("int16", b)) && (hastype(b, "int32") ==> len(tview("int32", dataB)) == 1 && len(dataB.Raw) == 4 && tview("int32", dataB)[0] == unbox("int32", b)) && (hastype(b, "int64") ==> len(tview("int64", dataB)) == 1 && len(dataB.Raw) == 8 && tview("int64", dataB)[0] == unbox("int64", b)) && (hastype(b, "uint") ==> len(tview("uint", dataB)) == 1 && len(dataB.Raw) == 8 && tview("uint", dataB)[0] == unbox("uint", b)) && (hastype(b, "uint8") ==> len(tview("uint8", dataB)) == 1 && len(dataB.Raw) == 1 && tview("uint8", dataB)[0] == unbox("uint8", b)) && (hastype(b, "uint16") ==> len(tview("uint16", dataB)) == 1 && len(dataB.Raw) == 2 && tview("uint16", dataB)[0] == unbox("uint16", b)) && (hastype(b, "uint32") ==> len(tview("uint32", dataB)) == 1 && len(dataB.Raw) == 4 && tview("uint32", dataB)[0] == unbox("uint32", b)) && (hastype(b, "uint64") ==> len(tview("uint64", dataB)) == 1 && len(dataB.Raw) == 8 && tview("uint64", dataB)[0] == unbox("uint64", b)) && (hastype(b, "float32") ==> len(tview("float32", dataB)) == 1 && len(dataB.Raw) == 4 && tview("float32", dataB)[0] == unbox("float32", b)) && (hastype(b, "float64") ==> len(tview("float64", dataB)) == 1 && len(dataB.Raw) == 8 && tview("float64", dataB)[0] == unbox("float64", b)) && (hastype(b, "complex64") ==> len(tview("complex64", dataB)) == 1 && len(dataB.Raw) == 8 && tview("complex64", dataB)[0] == unbox("complex64", b)) && (hastype(b, "complex128") ==> len(tview("complex128", dataB)) == 1 && len(dataB.Raw) == 16 && tview("complex128", dataB)[0] == unbox("complex128", b)) && (hastype(b, "string") ==> len(tview("string", dataB)) == 1 && len(dataB.Raw) == 16 && tview("string", dataB)[0] == unbox("string", b)) && (hastype(b, "bool") ==> len(tview("bool", dataB)) == 1 && len(dataB.Raw) == 1 && tview("bool", dataB)[0] == unbox("bool", b)) && (hastype(b, "uintptr") ==> len(tview("uintptr", dataB)) == 1 && len(dataB.Raw) == 8 && tview("uintptr", dataB)[0] == unbox("uintptr", b)) && (hastype(b, "unsafe.Pointer") ==> len(tview("unsafe.Pointer", dataB)) == 1 && len(dataB.Raw) == 8 && tview("unsafe.Pointer", dataB)[0] == unbox("unsafe.Pointer", b))
 //@   ensures [ok] err == nil
 //@   binds dataA = asptr("tensor.Dense", a).Header
 //@   binds dataReuse = asptr("tensor.Dense", reuse).Header when !isnil(reuse)
@@ -68,7 +68,7 @@ package tensor
 //@   ensures [no_iter] err == nil && !useIter ==> isnil(bit) && isnil(iit)
 //@   ensures [flat_when_possible] err == nil && useIter ==> !(flatOK(asptr("tensor.Dense", b)) && (isnil(reuse) || (flatOK(asptr("tensor.Dense", reuse)) && sameOrder(asptr("tensor.Dense", b), asptr("tensor.Dense", reuse)))))
 //@   ensures [scalar] err == nil ==> fresh(dataA) && fresh(dataA.Raw)
-//@   ensures [scalar_value] err == nil ==> (hastype(a, "int") ==> len(tview("int", dataA)) == 1 && tview("int", dataA)[0] == unbox("int", a)) && (hastype(a, "int8") ==> len(tview("int8", dataA)) == 1 && tview("int8", dataA)[0] == unbox("int8", a)) && (hastype(a, "int16") ==> len(tview("int16", dataA)) == 1 && tview("int16", dataA)[0] == unbox("int16", a)) && (hastype(a, "int32") ==> len(tview("int32", dataA)) == 1 && tview("int32", dataA)[0] == unbox("int32", a)) && (hastype(a, "int64") ==> len(tview("int64", dataA)) == 1 && tview("int64", dataA)[0] == unbox("int64", a)) && (hastype(a, "uint") ==> len(tview("uint", dataA)) == 1 && tview("uint", dataA)[0] == unbox("uint", a)) && (hastype(a, "uint8") ==> len(tview("uint8", dataA)) == 1 && tview("uint8", dataA)[0] == unbox("uint8", a)) && (hastype(a, "uint16") ==> len(tview("uint16", dataA)) == 1 && tview("uint16", dataA)[0] == unbox("uint16", a)) && (hastype(a, "uint32") ==> len(tview("uint32", dataA)) == 1 && tview("uint32", dataA)[0] == unbox("uint32", a)) && (hastype(a, "uint64") ==> len(tview("uint64", dataA)) == 1 && tview("uint64", dataA)[0] == unbox("uint64", a)) && (hastype(a, "float32") ==> len(tview("float32", dataA)) == 1 && tview("float32", dataA)[0] == unbox("float32", a)) && (hastype(a, "float64") ==> len(tview("float64", dataA)) == 1 && tview("float64", dataA)[0] == unbox("float64", a)) && (hastype(a, "complex64") ==> len(tview("complex64", dataA)) == 1 && tview("complex64", dataA)[0] == unbox("complex64", a)) && (hastype(a, "complex128") ==> len(tview("complex128", dataA)) == 1 && tview("complex128", dataA)[0] == unbox("complex128", a)) && (hastype(a, "string") ==> len(tview("string", dataA)) == 1 && tview("string", dataA)[0] == unbox("string", a))
+//@   ensures [scalar_value] err == nil ==> (hastype(a, "int") ==> len(tview("int", dataA)) == 1 && len(dataA.Raw) == 8 && tview("int", dataA)[0] == unbox("int", a)) && (hastype(a, "int8") ==> len(tview("int8", dataA)) == 1 && len(dataA.Raw) == 1 && tview("int8", dataA)[0] == unbox("int8", a)) && (hastype(a, "int16") ==> len(tview("int16", dataA)) == 1 && len(dataA.Raw) == 2 && tview("int16", dataA)[0] == unbox("int16", a)) && (hastype(a, "int32") ==> len(tview("int32", dataA)) == 1 && len(dataA.Raw) == 4 && tview("int32", dataA)[0] == unbox("int32", a)) && (hastype(a, "int64") ==> len(tview("int64", dataA)) == 1 && len(dataA.Raw) == 8 && tview("int64", dataA)[0] == unbox("int64", a)) && (hastype(a, "uint") ==> len(tview("uint", dataA)) == 1 && len(dataA.Raw) == 8 && tview("uint", dataA)[0] == unbox("uint", a)) && (hastype(a, "uint8") ==> len(tview("uint8", dataA)) == 1 && len(dataA.Raw) == 1 && tview("uint8", dataA)[0] == unbox("uint8", a)) && (hastype(a, "uint16") ==> len(tview("uint16", dataA)) == 1 && len(dataA.Raw) == 2 && tview("uint16", dataA)[0] == unbox("uint16", a)) && (hastype(a, "uint32") ==> len(tview("uint32", dataA)) == 1 && len(dataA.Raw) == 4 && tview("uint32", dataA)[0] == unbox("uint32", a)) && (hastype(a, "uint64") ==> len(tview("uint64", dataA)) == 1 && len(dataA.Raw) == 8 && tview("uint64", dataA)[0] == unbox("uint64", a)) && (hastype(a, "float32") ==> len(tview("float32", dataA)) == 1 && len(dataA.Raw) == 4 && tview("float32", dataA)[0] == unbox("float32", a)) && (hastype(a, "float64") ==> len(tview("float64", dataA)) == 1 && len(dataA.Raw) == 8 && tview("float64", dataA)[0] == unbox("float64", a)) && (hastype(a, "complex64") ==> len(tview("complex64", dataA)) == 1 && len(dataA.Raw) == 8 && tview("complex64", dataA)[0] == unbox("complex64", a)) && (hastype(a, "complex128") ==> len(tview("complex128", dataA)) == 1 && len(dataA.Raw) == 16 && tview("complex128", dataA)[0] == unbox("complex128", a)) && (hastype(a, "string") ==> len(tview("string", dataA)) == 1 && len(dataA.Raw) == 16 && tview("string", dataA)[0] == unbox("string", a)) && (hastype(a, "bool") ==> len(tview("bool", dataA)) == 1 && len(dataA.Raw) == 1 && tview("bool", dataA)[0] == unbox("bool", a)) && (hastype(a, "uintptr") ==> len(tview("uintptr", dataA)) == 1 && len(dataA.Raw) == 8 && tview("uintptr", dataA)[0] == unbox("uintptr", a)) && (hastype(a, "unsafe.Pointer") ==> len(tview("unsafe.Pointer", dataA)) == 1 && len(dataA.Raw) == 8 && tview("unsafe.Pointer", dataA)[0] == unbox("unsafe.Pointer", a))
 //@   ensures [ok] err == nil
 //@   binds dataB = asptr("tensor.Dense", b).Header
 //@   binds dataReuse = asptr("tensor.Dense", reuse).Header when !isnil(reuse)
